@@ -432,7 +432,7 @@ func vhSSO(maxKids, kinds int, modes int) {
 	exp := vhExpected(s, rootVerified)
 	vAssert("C01,C07.returned-assertions-are-exactly-the-verified-direct-children", len(resp.Assertions) == len(exp))
 	if len(resp.Assertions) == len(exp) {
-		vAssert("C01,C04,C07,C08.every-returned-assertion-field-for-field-equal-to-a-signed-one", vhSamePermutation(resp.Assertions, exp))
+		vAssert("C01,C03,C04,C07,C08.every-returned-assertion-field-for-field-equal-to-a-signed-one", vhSamePermutation(resp.Assertions, exp))
 		vAssert("C11.returned-order-is-document-order(encrypted-or-not)", vhSameInOrder(resp.Assertions, exp))
 		for i := range exp {
 			if !rootVerified {
@@ -540,9 +540,9 @@ func vhRetrieve(maxKids int, deep bool) {
 		return
 	}
 	vAssert("C04.summary-flag-mirrors-response", info.ResponseSignatureValidated == rootVerified)
-	vAssert("C01,C08.assertion-list-is-the-verified-one", vhSameInOrder(info.Assertions, exp))
+	vAssert("C01,C04,C08.assertion-list-is-the-verified-one", vhSameInOrder(info.Assertions, exp))
 	first := exp[0]
-	vAssert("C01,C08.nameid-of-first-verified-assertion", info.NameID == first.NameID)
+	vAssert("C01,C04,C08.nameid-of-first-verified-assertion", info.NameID == first.NameID)
 	vAssert("C08.session-index", info.SessionIndex == first.SessionIndex)
 	at, have := info.Values[first.AttrName]
 	vAssert("C08.attribute-keyed-by-name", have && len(info.Values) == 1)
